@@ -2,6 +2,7 @@ SPECIFICATION Spec
 CONSTANTS
   Shapes <- ShapesThorough
   MaxFaults = 3
+  MaxBurst = 0
 INVARIANT BImpliesA
 INVARIANT Settled
 CHECK_DEADLOCK FALSE
